@@ -5,7 +5,9 @@
 //@const src/config.rs :: MAX_NUM_LEVELS
 //@struct src/utils/linked_list.rs :: Node keep: element flags: no-where
 //@type src/utils/linked_list.rs :: SharedNode
-//@struct src/versioning/version.rs :: Version keep: files
+// opaque stand-in for options::DbOptions (the functions under contract only pass it through)
+pub struct DbOptions {}
+//@struct src/versioning/version.rs :: Version keep: db_options files
 
 pub open spec fn fm_small_user(f: &FileMetadata) -> Seq<u8> { f.smallest_key.unwrap().user_key@ }
 pub open spec fn fm_large_user(f: &FileMetadata) -> Seq<u8> { f.largest_key.unwrap().user_key@ }
